@@ -603,3 +603,35 @@ def l5(prog):
     if n < 3:
         raise Broken("fewer classes holding a scon_guard than confirmed by hand (3 of 4)")
     return inst, findings
+
+
+def l6(prog):
+    """Values leave the query that made them (zw_result_next, zw_value_clone, zw_stack_push, --a arguments) and outlive it.  A value
+    class therefore must OWN (by value, shared_ptr or unique_ptr) every object of the op graph, the layout or another value that it
+    keeps: a reference or raw-pointer member to such an object dangles once the query is destroyed.  (Handles of libdw/libdwfl and
+    pointers to static descriptors - constant domains, value types, builtins - are not owned by queries and are exempt by type.)"""
+    inst, findings = [], []
+    values = [q for q in prog.records if "zw_value" in prog.bases(q)]
+    if len(values) < 10:
+        raise Broken("only %d value classes found (floor 10)" % len(values))
+    opgraph = set()
+    for q in prog.records:
+        bs = [q] + prog.bases(q)
+        if any(b in ("op", "pred", "stringer", "op_origin", "stringer_origin", "layout", "scon", "zw_value") for b in bs):
+            opgraph.add(q)
+    for q in sorted(values):
+        key = "L6:" + q
+        bad = None
+        for fl in prog.records[q].get("fields", []):
+            t = (fl.get("t") or "").replace("const ", "").strip()
+            if not (t.endswith("&") or t.endswith("*")):
+                continue
+            target = t.rstrip("&* ").strip()
+            if target in opgraph:
+                bad = bad or (fl.get("l"), "member `%s` is a %s to %s, which the value does not own" % (fl["n"], "reference" if t.endswith("&") else "raw pointer", target))
+        inst.append((key, {"fields": len(prog.records[q].get("fields", []))}))
+        if bad:
+            findings.append({"key": key, "where": "libzwerg/" + str(bad[0] or prog.records[q].get("l")),
+                             "msg": "%s: %s: once the value has left its query (a result kept by the client, an --a argument) and the query is destroyed, applying or "
+                                    "comparing the value uses freed objects" % (q, bad[1]), "detail": None})
+    return inst, findings
